@@ -2,6 +2,10 @@ use std::f64::consts::PI;
 
 use super::{buffer::*, cepstrum::MelGeneralizedCepstrum, generalized::Generalized};
 
+/// Smallest filter gain. A generated gain trajectory can undershoot to zero or below, where
+/// `powf` in the gain normalisation returns infinity or NaN.
+const MIN_GAIN: f64 = 1e-100;
+
 #[derive(Debug, Clone)]
 pub struct LineSpectralPairs {
     buffer: Vec<f64>,
@@ -94,11 +98,13 @@ impl LineSpectralPairs {
 
     pub fn lsp2mgc(&self) -> MelGeneralizedCepstrum {
         let mut lpc = self.lsp2lpc();
-        if self.use_log_gain {
-            lpc[0] = self[0].exp();
+        let gain = if self.use_log_gain {
+            self[0].exp()
         } else {
-            lpc[0] = self[0];
-        }
+            self[0]
+        };
+        // the gain normalisation raises the gain to a negative power: keep it positive
+        lpc[0] = gain.max(MIN_GAIN);
         let mut lpc = lpc.ignorm();
         for i in 1..lpc.len() {
             lpc[i] *= -(self.stage as f64);
